@@ -833,7 +833,10 @@ impl JsonValueMutTrait for Value {
         P::Item: Index,
     {
         let mut path = path.into_iter();
-        let mut value = self.get_mut(path.next().unwrap())?;
+        let Some(first) = path.next() else {
+            return Some(self);
+        };
+        let mut value = self.get_mut(first)?;
         for index in path {
             value = value.get_mut(index)?;
         }
